@@ -217,7 +217,304 @@ def gen_c10(rng: random.Random, tier: str) -> Plan:
     return {"config": cfg, "ops": ops}
 
 
-GENERATORS = {"C10": gen_c10}
+# ---------------------------------------------------------------------------
+# C17: hand-assembled circuits whose fold groups mix initialisers
+
+
+def _gen_init(rng: random.Random, shape: tuple[int, ...], *, positive: bool, dtype: str) -> dict[str, Any]:
+    kinds = ["const", "const_array", "uniform", "normal", "dirichlet", "dirichlet"]
+    if positive:
+        kinds = ["const", "const_array", "uniform", "dirichlet", "dirichlet"]
+    if dtype == "complex":
+        kinds = ["const", "const_array", "normal", "uniform"]
+    t = rng.choice(kinds)
+    if t == "const":
+        if dtype == "complex" and rng.random() < 0.6:
+            return {"type": "const", "value": {"complex": [round(rng.uniform(0.2, 1.5), 3),
+                                                            round(rng.uniform(-1, 1), 3)]}}
+        if rng.random() < 0.3:
+            return {"type": "const", "value": rng.randint(1, 4)}
+        v = round(rng.uniform(0.1, 2.0), 3)
+        if not positive and rng.random() < 0.3:
+            v = -v
+        return {"type": "const", "value": v}
+    if t == "const_array":
+        bshape = None
+        r = rng.random()
+        if r < 0.25:
+            bshape = [shape[-1]]
+        elif r < 0.4 and len(shape) >= 2:
+            bshape = [shape[0], 1]
+        elif r < 0.5:
+            bshape = [1] * len(shape)
+        akind = "complex" if dtype == "complex" and rng.random() < 0.6 else rng.choice(
+            ["float", "float", "float32", "int"])
+        return {"type": "const", "value": {"array": rng.randrange(10**6), "bshape": bshape,
+                                           "dtype": akind}}
+    if t == "uniform":
+        a = round(rng.uniform(0.05, 1.0), 3) if positive else round(rng.uniform(-2.0, 0.5), 3)
+        return {"type": "uniform", "a": a, "b": round(a + rng.uniform(0.3, 2.0), 3)}
+    if t == "normal":
+        return {"type": "normal", "mean": round(rng.uniform(-1.0, 1.0), 3),
+                "std": round(rng.uniform(0.2, 2.0), 3)}
+    axis = rng.randrange(-len(shape), len(shape))
+    n = shape[axis]
+    if rng.random() < 0.5:
+        alpha: Any = rng.choice([0.5, 1.0, 2.0, 5.0])
+    else:
+        alpha = [rng.choice([0.5, 1.0, 2.0, 4.0]) for _ in range(n)]
+    return {"type": "dirichlet", "alpha": alpha, "axis": axis}
+
+
+def _gen_pspec(rng: random.Random, shape: tuple[int, ...], *, positive: bool, dtype: str,
+               learnable: bool, acts: list[str]) -> dict[str, Any]:
+    act = rng.choice(acts)
+    need_pos = positive and act == "none"
+    init = _gen_init(rng, shape, positive=need_pos, dtype=dtype)
+    tp: dict[str, Any] = {"init": init, "learnable": learnable, "dtype": dtype}
+    if init["type"] == "const" and not learnable and rng.random() < 0.4:
+        v = init["value"]
+        is_int = isinstance(v, int) or (isinstance(v, dict) and v.get("dtype") == "int")
+        is_cplx = isinstance(v, dict) and ("complex" in v or v.get("dtype") == "complex")
+        if not is_int and (dtype == "complex") == is_cplx:
+            tp["constparam"] = True
+    return {"tp": tp, "act": act}
+
+
+def gen_hand_recipe(rng: random.Random, semiring: str) -> dict[str, Any]:
+    nv = rng.randint(2, 4)
+    k = rng.randint(2, 4)
+    K = rng.randint(1, 3)
+    cplx = semiring != "lse-sum" and rng.random() < 0.2
+    dtype = "complex" if cplx else "real"
+    positive = semiring == "lse-sum"
+    if cplx:
+        acts = ["none"]
+    elif positive:
+        acts = ["none", "softmax", "softplus", "sigmoid", "exp"]
+    else:
+        acts = ["none", "none", "none", "softmax", "softplus", "square"]
+    ltypes = ["embedding", "embedding", "categorical_probs", "categorical_logits"]
+    if cplx:
+        ltypes = ["embedding"]
+    ltype = rng.choice(ltypes)
+    # one fold group: same layer class, same learnable flag and dtype - different initialisers
+    same_flags = rng.random() < 0.8
+    g_learn = rng.random() < 0.75
+    inputs = []
+    for v in range(nv):
+        lt = ltype if rng.random() < 0.85 else rng.choice(ltypes)
+        learn = g_learn if same_flags else rng.random() < 0.6
+        if lt == "categorical_probs":
+            ps = _gen_pspec(rng, (K, k), positive=True, dtype="real", learnable=learn,
+                            acts=["none", "softmax", "sigmoid"])
+        elif lt == "categorical_logits":
+            ps = _gen_pspec(rng, (K, k), positive=False, dtype="real", learnable=learn, acts=["none"])
+        else:
+            ps = _gen_pspec(rng, (K, k), positive=positive, dtype=dtype, learnable=learn, acts=acts)
+        ps["layer"] = lt
+        inputs.append(ps)
+    if rng.random() < 0.3:
+        v = rng.randrange(nv)
+        inputs[v]["evidence"] = rng.randrange(k)
+    sums = None
+    if rng.random() < 0.7:
+        s_learn = rng.random() < 0.75
+        sums = [_gen_pspec(rng, (K, K), positive=positive, dtype=dtype,
+                           learnable=s_learn if same_flags else rng.random() < 0.6, acts=acts)
+                for _ in range(nv)]
+    nc = rng.choice([1, 1, 2])
+    top = _gen_pspec(rng, (nc, K), positive=positive, dtype=dtype, learnable=rng.random() < 0.8,
+                     acts=acts)
+    return {"kind": "hand", "nv": nv, "k": k, "units": K, "inputs": inputs, "sums": sums,
+            "top": top, "nc": nc, "domain": ["discrete", k]}
+
+
+def gen_c17(rng: random.Random, tier: str) -> Plan:
+    hand = rng.random() < 0.75
+    if hand:
+        semiring = rng.choice(["sum-product", "sum-product", "lse-sum", "complex-lse-sum"])
+        cfg: dict[str, Any] = {"semiring": semiring, "fold": rng.random() < 0.7,
+                               "optimize": rng.random() < 0.4}
+        r0 = gen_hand_recipe(rng, semiring)
+        monotonic = semiring == "lse-sum"
+        nv = r0["nv"]
+        scope0 = [v for v in range(nv) if r0["inputs"][v].get("evidence") is None]
+    else:
+        monotonic = rng.random() < 0.5
+        cfg = _flags(rng, monotonic)
+        rg = recipes.gen_rg(rng, max_vars=5)
+        nv = recipes.rg_num_vars(rg)
+        r0 = recipes.gen_rg_circuit(rng, monotonic=monotonic, rg=rg,
+                                    kinds=["categorical", "embedding", "gaussian", "binomial"])
+        if not monotonic and cfg["semiring"] == "complex-lse-sum" and rng.random() < 0.5:
+            recipes.make_complex(r0)
+        scope0 = list(range(nv))
+    cfg["checks"] = []
+    cfg["faults"] = False
+    cfg["batches"] = [2]
+    cfg["check_subset"] = 2
+    ops: list[dict[str, Any]] = []
+    m = _Model()
+    ops.append({"op": "compile_base", "name": "b0", "recipe": r0, "seed": _seed(rng),
+                "opt": _opt_spec(rng)})
+    m.add("b0", scope0, scope0, 0, 0, ("b0",))
+    domain = recipes.recipe_domain(r0)
+    n_ops = rng.randint(5, 12) if tier == "quick" else rng.randint(8, 24)
+    for _ in range(n_ops):
+        r = rng.random()
+        if r < 0.30:
+            ops.append({"op": "reset", "target": rng.choice(m.names), "seed": _seed(rng)})
+        elif r < 0.45:
+            ops.append({"op": "reset_burst", "target": "b0" if rng.random() < 0.8 else rng.choice(m.names),
+                        "count": rng.choice([5, 10, 20, 40]), "seed": _seed(rng)})
+        elif r < 0.58:
+            ops.append({"op": "perturb", "base": "b0", "mode": rng.choice(["add", "copy", "mulpos"]),
+                        "scale": rng.choice([0.5, 1.0, 3.0]), "seed": _seed(rng)})
+        elif r < 0.68:
+            ops.append({"op": "optim", "base": "b0", "via": rng.choice(m.names),
+                        "steps": rng.randint(1, 2), "loss": "tanh", "seed": _seed(rng)})
+        elif r < 0.75:
+            ops.append({"op": "save", "target": rng.choice(m.names), "slot": f"s{rng.randrange(2)}"})
+        elif r < 0.82:
+            ops.append({"op": "load", "target": rng.choice(m.names), "slot": f"s{rng.randrange(2)}"})
+        elif r < 0.93 and m.nd < 3:
+            d = _gen_derive(rng, m, domain=domain, poly=False, allow_fault=False,
+                            oprs=["integrate", "multiply", "conjugate", "evidence", "concatenate"])
+            if d is not None:
+                ops.append(d)
+        else:
+            ops.append({"op": "restart", "mode": "same", "seed": _seed(rng),
+                        "hash_seed": rng.getrandbits(60)})
+    return {"config": cfg, "ops": ops}
+
+
+# ---------------------------------------------------------------------------
+# C19: durable store, restarts, loads into freshly compiled instances
+
+
+def gen_c19(rng: random.Random, tier: str) -> Plan:
+    hand = rng.random() < 0.25
+    poly = False
+    if hand:
+        semiring = rng.choice(["sum-product", "lse-sum", "complex-lse-sum"])
+        cfg: dict[str, Any] = {"semiring": semiring, "fold": rng.random() < 0.65,
+                               "optimize": rng.random() < 0.5}
+        r0 = gen_hand_recipe(rng, semiring)
+        nv = r0["nv"]
+        scope0 = [v for v in range(nv) if r0["inputs"][v].get("evidence") is None]
+        rg = None
+        monotonic = semiring == "lse-sum"
+    else:
+        monotonic = rng.random() < 0.5
+        cfg = _flags(rng, monotonic)
+        poly = (not monotonic) and rng.random() < 0.2
+        kinds = ["polynomial"] if poly else (
+            ["categorical", "categorical", "gaussian", "embedding", "binomial"] if monotonic
+            else ["embedding", "embedding", "categorical", "gaussian"])
+        rg = recipes.gen_rg(rng, max_vars=5)
+        nv = recipes.rg_num_vars(rg)
+        r0 = recipes.gen_rg_circuit(rng, monotonic=monotonic, rg=rg, kinds=kinds)
+        if not monotonic and cfg["semiring"] == "complex-lse-sum" and rng.random() < 0.5:
+            recipes.make_complex(r0)
+        scope0 = list(range(nv))
+    cfg["checks"] = ["S1", "S3", "memo", "D2"]
+    cfg["faults"] = False
+    cfg["batches"] = [rng.choice([2, 3]), rng.choice([1, 4])]
+    cfg["check_subset"] = 3
+    ops: list[dict[str, Any]] = []
+    m = _Model()
+    ops.append({"op": "compile_base", "name": "b0", "recipe": r0, "seed": _seed(rng),
+                "opt": _opt_spec(rng)})
+    m.add("b0", scope0, scope0, 0, 0, ("b0",))
+    base_recipes = {"b0": r0}
+    if rg is not None and rng.random() < 0.35:
+        r1 = recipes.gen_rg_circuit(rng, monotonic=monotonic, rg=rg, kinds=[r0["input"]["type"]])
+        r1["input"] = dict(r0["input"])
+        r1["sp"] = r0["sp"] if rng.random() < 0.7 else r1["sp"]
+        recipes.fix_units(r1)
+        if r0["sum"].get("dtype") == "complex":
+            recipes.make_complex(r1)
+        ops.append({"op": "compile_base", "name": "b1", "recipe": r1, "seed": _seed(rng),
+                    "opt": _opt_spec(rng)})
+        m.add("b1", scope0, scope0, 0, 0, ("b1",))
+        base_recipes["b1"] = r1
+    domain = recipes.recipe_domain(r0)
+    for _ in range(rng.randint(1, 3)):
+        d = _gen_derive(rng, m, domain=domain, poly=poly, allow_fault=False)
+        if d is not None:
+            ops.append(d)
+    bases = list(base_recipes)
+    slots: dict[str, str] = {}
+
+    def mutate() -> dict[str, Any]:
+        b = rng.choice(bases)
+        r = rng.random()
+        if r < 0.5:
+            mode = _perturb_mode(rng, base_recipes[b]) if base_recipes[b]["kind"] == "rg" else "add"
+            return {"op": "perturb", "base": b, "mode": mode,
+                    "scale": rng.choice([0.1, 0.5, 1.0]), "seed": _seed(rng)}
+        if r < 0.85:
+            vias = [n for n in m.names if b in m.bases[n]]
+            return {"op": "optim", "base": b, "via": rng.choice(vias), "steps": rng.randint(1, 2),
+                    "loss": rng.choice(["tanh", "nll"]), "seed": _seed(rng)}
+        return {"op": "reset", "target": rng.choice(m.names), "seed": _seed(rng)}
+
+    def save() -> dict[str, Any]:
+        slot = f"s{rng.randrange(4)}"
+        tgt = rng.choice(m.names) if rng.random() < 0.6 else rng.choice(bases)
+        slots[slot] = tgt
+        return {"op": "save", "target": tgt, "slot": slot}
+
+    def load() -> dict[str, Any] | None:
+        if not slots:
+            return None
+        slot = rng.choice(sorted(slots))
+        return {"op": "load", "target": slots[slot], "slot": slot}
+
+    def restart() -> dict[str, Any]:
+        return {"op": "restart", "mode": rng.choice(["same", "rebuild"]), "seed": _seed(rng),
+                "hash_seed": rng.getrandbits(60)}
+
+    n_ops = rng.randint(5, 12) if tier == "quick" else rng.randint(8, 26)
+    for _ in range(n_ops):
+        r = rng.random()
+        if r < 0.35:
+            ops.append(mutate())
+        elif r < 0.55:
+            ops.append(save())
+        elif r < 0.72:
+            o = load()
+            if o is not None:
+                ops.append(o)
+        elif r < 0.84:
+            ops.append(restart())
+        elif r < 0.94 and m.nd < 5:
+            d = _gen_derive(rng, m, domain=domain, poly=poly, allow_fault=False)
+            if d is not None:
+                ops.append(d)
+        else:
+            ops.append({"op": "eval", "target": rng.choice(m.names), "batch": rng.choice([1, 2, 5]),
+                        "seed": _seed(rng)})
+    if rng.random() < 0.75:
+        # the canonical scenario: train, checkpoint, train on, crash, recompile, restore
+        ops.append(mutate())
+        ops.append(save())
+        if rng.random() < 0.5:
+            ops.append(save())
+        ops.append(mutate())
+        ops.append(restart())
+        for slot in sorted(slots):
+            if rng.random() < 0.8:
+                ops.append({"op": "load", "target": slots[slot], "slot": slot})
+        if rng.random() < 0.4 and m.nd < 6:
+            d = _gen_derive(rng, m, domain=domain, poly=poly, allow_fault=False)
+            if d is not None:
+                ops.append(d)
+    return {"config": cfg, "ops": ops}
+
+
+GENERATORS = {"C10": gen_c10, "C17": gen_c17, "C19": gen_c19}
 
 
 def generate(prop: str, run_seed: int, tier: str) -> Plan:
